@@ -229,6 +229,9 @@ class RefDatafit:
             return np.exp(z) / n
         if k == "gamma":
             return y * np.exp(-z) / n
+        if k == "cox":
+            # documented diagonal upper bound: diag(e^u) diag(M^T s/(M e^u)) / n = raw gradient + s / n
+            return cox_rawgrad(y, z, p.get("efron", False)) + np.asarray(y[:, 1], float) / n
         raise KeyError(k)
 
     def rawhess_full(self, y, z):
@@ -349,6 +352,18 @@ class RefPenalty:
     @property
     def convex(self):
         return self.kind in ("l1", "wl1", "enet", "box", "pos", "l2", "group", "sgroup", "l21", "slope")
+
+    def admissible_step(self, s, j=None):
+        """step range in which the prox objective of a weakly convex penalty is strictly convex."""
+        k, p = self.kind, self.p
+        if k in ("mcp", "wmcp", "bmcp"):
+            wt = 1.0
+            if k == "wmcp":
+                wt = float(np.asarray(p["weights"], float)[j]) if j is not None else float(np.max(p["weights"]))
+            return s * wt < p["gamma"] * (1 - 1e-9)
+        if k in ("scad", "bscad"):
+            return s < (p["gamma"] - 1) * (1 - 1e-9)
+        return True
 
     def _ep(self, j=None):
         """Elementwise params for coordinate(s) j (weights resolved)."""
@@ -710,6 +725,9 @@ class RefProblem:
                     res[j] = dsub[j]
                     continue
                 s = 1.0 / L[j]
+                if not pen.admissible_step(s, j):
+                    res[j] = dsub[j]     # prox-gradient map not well defined for this step: judge stationarity
+                    continue
                 x = w[j] - s * g[j]
                 u, vmin = pen.prox_1d(x, s, j)
                 if not pen.convex:
@@ -736,6 +754,9 @@ class RefProblem:
                     res[j] = dsub[j]
                     continue
                 s = 1.0 / L[j]
+                if not pen.admissible_step(s, j):
+                    res[j] = dsub[j]
+                    continue
                 x = w[j] - s * g[j]
                 u, vmin = pen.prox_block(x, s, j)
                 if not pen.convex and leq(pen.prox_block_obj(w[j], x, s, j), vmin, rel=1e-12):
